@@ -20,7 +20,8 @@ import (
 func Spec() *run.Spec {
 	return &run.Spec{
 		ID: "C12", Level: "exploration",
-		Rule: "phase histories: case = one edit history of 5-80 operations through the graph.Instance methods the HTTP handlers call (CreateNode over every registered node type incl. harness-registered order-sensitive array / formatting nodes, ConnectNodes incl. bursts that take array inputs to 0-15 entries, DeleteNodeInputConnection, UpdateParameter for every parameter type (image uploads: PNGs of every colour model from Go's default encoder, and foreign encodings: JPEG, PNGs written with no / fastest / best compression, PNGs with tEXt / pHYs / tIME chunks; the same bytes also as File values), SetName/SetDescription, SetNodeAsProducer, SetMetadata/DeleteMetadata (positions, notes, camera, custom trees; half of the values are at the edges of JSON: empty array, empty object, nested empties 1-4 deep, arrays of empties, objects like {tags:[],groups:[{members:[]}]}, null, empty string / 0 / false, numbers around 2^53, 1e21, -0, MaxFloat64, non-ASCII / empty / odd keys, nesting 5-16 deep; posted as fields of nodes.<id> and notes.<k> and under custom.*), DeleteNode of nodes nothing depends on (every other time after a nodes.<id>.position metadata entry was posted for it, which stays behind; a fifth of the posted positions are for ids that no node ever had), generating an artifact mid-history), with intermediate saves like the editor's autosave (App.Schema() after every edit / after a random fifth of the edits / never; every tenth intermediate file is itself loaded into a fresh application and compared with the graph at that moment), starting from an empty application or from a hand-built App.Files graph; half of the histories have 2-4 sessions: the graph is saved, the file is loaded into a fresh application (and compared), and the history continues ON THAT APPLICATION with 3-27 more operations, mostly beginning with a CreateNode (every id CreateNode returns must be new among the live nodes), before 3 of 4 such saves a node other than the highest-numbered one is deleted; " +
+		Rule: "Since round 11 a quarter of the producer operations publish the same node output under a second producer name (graph.Instance.AddProducer); a node published under several names is observed by the sorted set of its producer names, not by the single name Schema() happens to report. " +
+			"phase histories: case = one edit history of 5-80 operations through the graph.Instance methods the HTTP handlers call (CreateNode over every registered node type incl. harness-registered order-sensitive array / formatting nodes, ConnectNodes incl. bursts that take array inputs to 0-15 entries, DeleteNodeInputConnection, UpdateParameter for every parameter type (image uploads: PNGs of every colour model from Go's default encoder, and foreign encodings: JPEG, PNGs written with no / fastest / best compression, PNGs with tEXt / pHYs / tIME chunks; the same bytes also as File values), SetName/SetDescription, SetNodeAsProducer, SetMetadata/DeleteMetadata (positions, notes, camera, custom trees; half of the values are at the edges of JSON: empty array, empty object, nested empties 1-4 deep, arrays of empties, objects like {tags:[],groups:[{members:[]}]}, null, empty string / 0 / false, numbers around 2^53, 1e21, -0, MaxFloat64, non-ASCII / empty / odd keys, nesting 5-16 deep; posted as fields of nodes.<id> and notes.<k> and under custom.*), DeleteNode of nodes nothing depends on (every other time after a nodes.<id>.position metadata entry was posted for it, which stays behind; a fifth of the posted positions are for ids that no node ever had), generating an artifact mid-history), with intermediate saves like the editor's autosave (App.Schema() after every edit / after a random fifth of the edits / never; every tenth intermediate file is itself loaded into a fresh application and compared with the graph at that moment), starting from an empty application or from a hand-built App.Files graph; half of the histories have 2-4 sessions: the graph is saved, the file is loaded into a fresh application (and compared), and the history continues ON THAT APPLICATION with 3-27 more operations, mostly beginning with a CreateNode (every id CreateNode returns must be new among the live nodes), before 3 of 4 such saves a node other than the highest-numbered one is deleted; " +
 			"then S1 = App.Schema(), a fresh generator.App applies S1, and the two applications are compared through public observers (node ids and types, per node the map input name -> dependency id:port with array inputs by position, parameter ToMessage()/name/Schema(), producers, metadata tree, application fields), every producer's artifact is generated on both sides and compared, and S2 = fresh.Schema() must equal S1 byte for byte. The harness keeps a mirror of every SetMetadata / DeleteMetadata call; the tree the edited application hands out, the metadata in the saved file, the tree of the reloaded application, every node's Schema() metadata and Schema().Notes (edited and reloaded) must equal the mirror as canonical JSON ([] is not null, {} is not null). " +
 			"Non-trivial: the saved graph has an array input with >= 10 connections or >= 3 parameter types. Distinctness: start state / node-count bucket / longest array bucket / parameter-type count / producer count / deletions / metadata. " +
 			"phase large-arrays: one array input of an order-sensitive harness node receives 352, 1000-1200, 256, 600, 257, 400, 100, 255 (then also random 100-1200) connections from 3-12 sources (parameters and harness nodes of the element type, random picks), with 2-4 disconnects in the middle, a few intermediate saves (one of them reloaded and compared, mostly past position 256), a text producer over the array where the node is string-valued; then the same save / reload / compare / re-save / artifact checks. " +
